@@ -631,8 +631,11 @@ void ExpandStruct(PStructRec StructRec) {
             }
         }
     }
-    BookKeeping();
+    /* mark as reservation first: the debug line info must not pick up
+       code buffer contents for an instance that emits no code */
+
     DontPrint = True;
+    BookKeeping();
 }
 
 void asmstruct_init(void) {
